@@ -34,9 +34,11 @@ impl Prop for C02 {
         tier.pick(1_000_000, 4_000_000)
     }
     fn strategy(&self, _tier: Tier) -> BoxedStrategy<Case> {
-        (gen::site(60.0, 6.0), 0u8..9, gen::weather_opt(), gen::date())
-            .prop_map(|(site, method, weather, date)| Case { site, method, weather, date })
-            .boxed()
+        let site_date = prop_oneof![
+            8 => (gen::site(60.0, 6.0), gen::date()),
+            1 => gen::ra_wrap_site_date(60.0, 6.0, 12.0),
+        ];
+        (site_date, 0u8..9, gen::weather_opt()).prop_map(|((site, date), method, weather)| Case { site, method, weather, date }).boxed()
     }
     fn self_test(&self) -> Result<(), String> {
         ephem::self_test()
@@ -44,6 +46,7 @@ impl Prop for C02 {
     fn check(&self, c: &Case, st: &mut Stats) -> Result<(), Failure> {
         st.eval();
         let spec = ParamSpec::plain(c.method);
+        prime(&c.site, &spec, c.date, c.weather, prime_selector(&c.site, c.date));
         let times = compute(&c.site, &spec, c.date, c.weather);
         let (lat, lon, gmt) = (c.site.lat.0, c.site.lon.0, c.site.gmt.0);
         let Some(dh) = t(&times, Prayer::Dhuhr) else {
